@@ -104,6 +104,12 @@ def gen_graph(rng, ints=False):
             v = [rng.randrange(1, 9) for _ in range(rng.randrange(1, 4) if rng.random() < 0.75 else rng.randrange(11, 15))]
             if rng.random() < 0.4:
                 v = [v, [0.5, 1.5] if not ints else [3, -4]]
+            elif not ints and rng.random() < 0.45:
+                # lists of words, among them names Python's eval knows: an indexed reference holds the element itself
+                v = [rng.choice(["e", "pi", "exp", "id", "max", "sin", "inf", "hello", "two words", "None1", "abs"]) for _ in range(rng.randrange(1, 5))]
+                if rng.random() < 0.3:
+                    v = [v, ["pi", "e"]]
+                feats.add("word-list")
             nodes.append(Node(nm, "lit", v))
             lists.append(nm)
         elif r < 0.68 and anyv:
@@ -524,6 +530,9 @@ def run(ctx):
     ]
     for nodes in probes:
         cases.append((mk_case(rng, nodes, order=list(range(len(nodes))), placement=["root"] * len(nodes)), {"probe"}))
+    for nodes in ([Node("u", "lit", ["m", "kg", "e", "pi"]), Node("a", "idx", ("u", [2])), Node("b", "idx", ("u", [3])), Node("uu", "ref", "u"), Node("c", "idx", ("uu", [2]))],
+                  [Node("t", "lit", [["id", "max"], ["sin", "x y"]]), Node("a", "idx", ("t", [0, 0])), Node("b", "idx", ("t", [1, 0])), Node("c", "idx", ("t", [1]))]):
+        cases.append((mk_case(rng, nodes, order=list(range(len(nodes))), placement=["root"] * len(nodes)), {"probe", "indexed", "word-list"}))
     for nodes in ([Node("x", "lit", [5, 6]), Node("a", "expr", ("+", ("idx", "x", [0]), ("num", 1), " ")), Node("b", "expr", ("*", ("ref", "a"), ("num", 2), " ")), Node("xy", "ref", "a")],
                   [Node("x", "lit", [5, 6]), Node("ab", "ref", "x"), Node("abc", "ref", "ab"), Node("a", "idx", ("abc", [1]))]):
         cases.append((mk_case(rng, nodes, order=list(range(len(nodes))), placement=["root"] * len(nodes)), {"probe", "indexed"}))
